@@ -44,6 +44,7 @@ func init() {
 		c19System(c)
 	})
 	Register("C13", func(c *RunCtx) { c13Enumerate(c) })
+	Register("C20", func(c *RunCtx) { c20Enumerate(c) })
 }
 
 // gatingCfg: histories for access gating and token currency: calls and
